@@ -123,17 +123,88 @@ func (in *Exec) sprintf(fr *frame, format value, args value) Str {
 	if !ok {
 		return in.opaqueStr()
 	}
-	var nat []interface{}
+	var argv []value
 	if args != nil {
-		for _, a := range args.([]value) {
-			n, ok := in.toNative(fr, a)
-			if !ok {
+		argv = args.([]value)
+	}
+	// all arguments concrete: the real fmt does everything
+	var nat []interface{}
+	allNative := true
+	for _, a := range argv {
+		n, ok := in.toNative(fr, a)
+		if !ok {
+			allNative = false
+			break
+		}
+		nat = append(nat, n)
+	}
+	if allNative {
+		return in.mkStr(fmt.Sprintf(f, nat...))
+	}
+	// piecewise: literal text, natively formatted concrete operands, and symbolic strings under %s/%v/%q
+	var out []*Term
+	argi := 0
+	for i := 0; i < len(f); i++ {
+		if f[i] != '%' {
+			out = append(out, in.byteConst(f[i]))
+			continue
+		}
+		j := i + 1
+		for j < len(f) && (f[j] == '+' || f[j] == '-' || f[j] == '#' || f[j] == ' ' || f[j] == '0' || (f[j] >= '1' && f[j] <= '9') || f[j] == '.') {
+			j++
+		}
+		if j >= len(f) {
+			return in.opaqueStr()
+		}
+		verb := f[i : j+1]
+		if f[j] == '%' {
+			out = append(out, in.byteConst('%'))
+			i = j
+			continue
+		}
+		if f[j] == '*' || f[j] == '[' || argi >= len(argv) {
+			return in.opaqueStr()
+		}
+		a := argv[argi]
+		argi++
+		i = j
+		if n, ok := in.toNative(fr, a); ok {
+			out = append(out, in.mkStr(fmt.Sprintf(verb, n)).B...)
+			continue
+		}
+		ia, isI := a.(iface)
+		if !isI || ia.t == nil {
+			return in.opaqueStr()
+		}
+		sv, isStr := ia.v.(Str)
+		if !isStr || sv.Opaque || len(verb) != 2 {
+			return in.opaqueStr()
+		}
+		switch f[j] {
+		case 's', 'v':
+			out = append(out, sv.B...)
+		case 'q':
+			// strconv.Quote leaves printable ASCII other than '"' and '\\' untouched
+			safe := in.tb.True
+			for _, c := range sv.B {
+				ok := in.tb.AndN(in.tb.Ule(in.tb.Const(8, 0x20), c), in.tb.Ule(c, in.tb.Const(8, 0x7e)),
+					in.tb.Not(in.tb.Eq(c, in.tb.Const(8, '"'))), in.tb.Not(in.tb.Eq(c, in.tb.Const(8, 0x5c))))
+				safe = in.tb.And(safe, in.simp(ok))
+			}
+			if !in.branch(safe) {
 				return in.opaqueStr()
 			}
-			nat = append(nat, n)
+			out = append(out, in.byteConst('"'))
+			out = append(out, sv.B...)
+			out = append(out, in.byteConst('"'))
+		default:
+			return in.opaqueStr()
 		}
 	}
-	return in.mkStr(fmt.Sprintf(f, nat...))
+	if argi != len(argv) {
+		return in.opaqueStr()
+	}
+	return Str{B: out}
 }
 
 func (in *Exec) sprint(fr *frame, args value, ln bool) Str {
